@@ -234,7 +234,7 @@ def finishThread (s : Mt.State) (t : Nat) : Nat → Mt.State
   | n + 1 => if s.pc t == Mt.Pc.idle then s else finishThread (Mt.stepGo s t).1 t n
 
 def schedEnd (s : Mt.State) (nt : Nat) : String :=
-  let s1 := (List.range nt).foldl (fun s t => finishThread s t 4) s
+  let s1 := (List.range nt).foldl (fun s t => finishThread s t 6) s
   let ids := (s1.frames.map (·.id)).mergeSort (· ≤ ·)
   let s2 := ids.foldl (fun s id => (Mt.stepFree s id).1) s1
   let h := s2.heap.delOpt s2.ptr
